@@ -27,6 +27,7 @@ COMPILER_REPLAYS = {
     "u_liftty": ["replay/c08/nested_tuple.sh", "replay/c08/closure_callee.sh", "replay/c08/closure_returns_closure.sh", "replay/c08/nested_tuple_literal.sh"],
     "u_tastlit": ["replay/c10/run.sh"],
     "u_fmtverb": ["replay/c10/float_to_string.sh"],
+    "u_corefloat": ["replay/c14/core_float.sh"],
     "u_block": ["replay/c17/method_value.sh"],
     "u_dynpayload": ["replay/c17/dyn_numeric_literal.sh"],
     "u_dynimpl": ["replay/c17/dyn_generic_instance.sh"],
